@@ -319,8 +319,11 @@ class Envelope:
         outcomes = {}
         reshape_shape = []
         if self.state is None:
-            for s in [self.polarization, self.fock]:
-                out = s.measure()
+            members: List["BaseState"] = [self.polarization, self.fock]
+            if separate_measurement and len(states) == 1:
+                members = [s for s in members if s is states[0]]
+            for s in members:
+                out = s.measure(separate_measurement=True, destructive=destructive)
                 for k, v in out.items():
                     outcomes[k] = v
         else:
